@@ -44,12 +44,6 @@ def coerce_max_errors(max_errors):
     return max_errors
 
 
-def thread(fn):
-    t = threading.Thread(target=fn)
-    t.start()
-    return t
-
-
 DONE = object()
 
 
@@ -64,19 +58,25 @@ def worker_thread(queue, process_item):
             finally:
                 queue.task_done()
 
-    return thread(process_items)
+    return threading.Thread(target=process_items)
 
 
 @contextmanager
-def worker_pool(queue, process_item, worker_count):
+def worker_pool(queue, process_item, worker_count, shutdown):
     workers = []
     try:
         for _ in range(worker_count):
-            workers.append(worker_thread(queue, process_item))
+            # Record the worker before starting it so that it is shut down and joined
+            # even if starting a thread fails or is interrupted.
+            worker = worker_thread(queue, process_item)
+            workers.append(worker)
+            worker.start()
         yield
     finally:
+        shutdown(len(workers))
         for worker in workers:
-            worker.join()
+            if worker.ident is not None:
+                worker.join()
 
 
 class PreparedNodes(NamedTuple):
@@ -154,13 +154,14 @@ def run_function_on_graph(
                         if remaining_pred_count_mapping[successor] == 0:
                             queue.put(successor)
 
-    with worker_pool(queue, process_node, worker_count):
-        try:
-            queue.join()
-        finally:
-            stop = True
-            for _ in range(worker_count):
-                queue.put(DONE)
+    def shutdown(recorded_worker_count):
+        nonlocal stop
+        stop = True
+        for _ in range(recorded_worker_count):
+            queue.put(DONE)
+
+    with worker_pool(queue, process_node, worker_count, shutdown):
+        queue.join()
 
     if first_node_error:
         raise first_node_error
